@@ -417,12 +417,51 @@ func ruleGRDfw(w *World, r *Report) {
 	}
 	isStatic := func(in ssa.Instruction) bool { return isModCall(in, proxyPkg, "AIProxy.checkStaticFirewall") }
 	statics := findInstrs(fn, isStatic)
+	// the pattern loop written out in ServeHTTP itself (the helper inlined): the check is the regexp match, "blocked" is
+	// its result, and "no pattern configured" / "firewall switched off" are the scenario in which there is nothing to pass
+	inlineStatic := len(statics) == 0
+	staticAssume := emptyEdges
+	if inlineStatic {
+		isStatic = func(in ssa.Instruction) bool {
+			c, ok := in.(*ssa.Call)
+			if !ok {
+				return false
+			}
+			o := calleeObj(&c.Call)
+			return o != nil && o.Pkg() != nil && o.Pkg().Path() == "regexp" && strings.HasPrefix(shortName(o), "Regexp.Match")
+		}
+		statics = findInstrs(fn, isStatic)
+		staticAssume = map[edgeKey]bool{}
+		for k := range emptyEdges {
+			staticAssume[k] = true
+		}
+		for k := range zeroIterEdges(fn, isStatic) {
+			staticAssume[k] = true
+		}
+		for _, b := range fn.Blocks {
+			for _, in := range b.Instrs {
+				if x, ok := in.(*ssa.UnOp); ok {
+					if _, isCfg := configFieldLoad(x, "FirewallEnabled"); isCfg {
+						_, f := condEdges(x)
+						for _, e := range f {
+							staticAssume[e] = true
+						}
+					}
+				}
+			}
+		}
+	}
 	for i, sc := range statics {
 		c := sc.(*ssa.Call)
 		okArg := len(c.Call.Args) == 2 && c.Call.Args[1] == ssa.Value(prompt)
 		r.Cond(okArg, "GRD-fw", fmt.Sprintf("static-check#%d:sees-whole-prompt", i+1), w.Pos(c.Pos()), "the pattern check is given exactly the text extractPrompt returned", "the pattern check is given something other than the full extracted prompt (a truncated, rewritten or lower-priority text): a deny pattern later in the message is not seen")
 	}
-	blockedVal := func(in ssa.Instruction) ssa.Value { return extractOf(in.(*ssa.Call), 0) }
+	blockedVal := func(in ssa.Instruction) ssa.Value {
+		if inlineStatic && isStatic(in) {
+			return in.(*ssa.Call)
+		}
+		return extractOf(in.(*ssa.Call), 0)
+	}
 	isSem := func(in ssa.Instruction) bool {
 		return isModCall(in, proxyPkg, "AIProxy.checkFirewallWithVec") || isModCall(in, proxyPkg, "AIProxy.checkSemanticFirewall") || isModCall(in, proxyPkg, "AIProxy.checkFirewall")
 	}
@@ -506,7 +545,7 @@ func ruleGRDfw(w *World, r *Report) {
 			kind = "cached-reply"
 		}
 		key := fmt.Sprintf("%s#%d", kind, i+1)
-		ok, wit := mustPassGuard(fn, tgt, isStatic, blockedVal, false, emptyEdges)
+		ok, wit := mustPassGuard(fn, tgt, isStatic, blockedVal, false, staticAssume)
 		r.Cond(ok, "GRD-fw", key+":static", w.Pos(s.Pos()), "reached only behind checkStaticFirewall's not-blocked edge (or with an empty prompt)", "ServeHTTP can hand a non-empty prompt to the upstream model (or answer it from the cache) on a path that never consulted the deny patterns, or on their blocked edge: a prompt that matches a deny pattern reaches the model — e.g. by also containing a pass-through marker", w.witness(wit)...)
 		ok, wit = mustPassGuard(fn, tgt, isSem, blockedVal, false, semAssume)
 		r.Cond(ok, "GRD-fw", key+":semantic", w.Pos(s.Pos()), "with the firewall enabled and an embedding available, reached only behind the semantic check's not-blocked edge", "with the firewall enabled and an embedding available ServeHTTP can still hand the prompt to the upstream model (or answer it from the cache) without the nearest-forbidden-prompt check, or on its blocked edge", w.witness(wit)...)
@@ -587,6 +626,11 @@ func ruleGRDpattern(w *World, r *Report) {
 		}
 	}
 	fi = w.Func(proxyPkg, "AIProxy.checkStaticFirewall")
+	inlined := false
+	if fi == nil { // the pattern loop inlined into ServeHTTP
+		fi = w.Func(proxyPkg, "AIProxy.ServeHTTP")
+		inlined = true
+	}
 	if fi == nil {
 		r.Und("GRD-pattern", "anchor:AIProxy.checkStaticFirewall", "", "anchor lost")
 		return
@@ -603,6 +647,34 @@ func ruleGRDpattern(w *World, r *Report) {
 	ms := findInstrs(fn, isMatch)
 	if len(ms) == 0 {
 		r.Und("GRD-pattern", "anchor:MatchString", w.Pos(fi.Decl.Pos()), "checkStaticFirewall matches nothing")
+		return
+	}
+	if inlined {
+		// whole text: the extracted prompt itself; blocks: from a match no hand-off to the upstream proxy is reachable
+		for i, m := range ms {
+			c := m.(*ssa.Call)
+			arg := c.Call.Args[len(c.Call.Args)-1]
+			pc, isCall := arg.(*ssa.Call)
+			r.Cond(isCall && isModCall(pc, proxyPkg, "extractPrompt"), "GRD-pattern", fmt.Sprintf("checkStaticFirewall:match#%d:whole-text", i+1), w.Pos(c.Pos()), "the pattern is matched against the extracted prompt itself", "the pattern is matched against something other than the extracted prompt (a prefix, a trimmed or rewritten copy): a deny pattern elsewhere in the message is not seen")
+			t, _ := condEdges(c)
+			bad := len(t) == 0
+			var wit []ssa.Instruction
+			handOff := func(in ssa.Instruction) bool {
+				hc, ok := in.(*ssa.Call)
+				if !ok {
+					return false
+				}
+				o := calleeObj(&hc.Call)
+				return o != nil && o.Pkg() != nil && o.Pkg().Path() == "net/http/httputil" && shortName(o) == "ReverseProxy.ServeHTTP"
+			}
+			for _, e := range t {
+				if found, wt := (pathQuery{fn: fn, target: handOff}).find(ipos{e.from.Succs[e.succ], -1}); found {
+					bad, wit = true, wt
+				}
+			}
+			r.Cond(!bad, "GRD-pattern", fmt.Sprintf("checkStaticFirewall:match#%d:blocks", i+1), w.Pos(c.Pos()), "after a match no hand-off to the upstream model is reachable", "after a deny pattern matched ServeHTTP can still hand the request to the upstream model", w.witness(wit)...)
+		}
+		r.Count("pattern_match_sites", len(ms))
 		return
 	}
 	bi := boolResultIndex(fn)
